@@ -1,6 +1,7 @@
 import DeltaModel.Proto
 import DeltaModel.LineNumbers
 import DeltaModel.WholeDiff
+import DeltaModel.WholeDiffSbs
 /-!
 Model driver for C05 (`drv_linenum`). Same line protocol as /repo/src/verif_hooks/linenum.rs.
 State: the configuration set by the last `cfg` request (only the options that matter for the
@@ -193,6 +194,48 @@ def showORow : Whole.ORow → String
   | .line none w pf => s!" R {w} {hexOfString pf}"
   | .line (some x) w pf => s!" C {showOpt x.left} {showOpt x.right} {w} {hexOfString pf}"
 
+/-- `linenum.whole_sbs` item: `N x<minus file> x<plus file>` | `H x<@@ line>` |
+    `L <0 minus|1 plus|2 unchanged|3 other> <display rows> <raw 0|1> <tag>`; tag: 0 = not paired, otherwise the
+    removed and the added line of a pair carry the same tag -/
+def pItemS : P WholeSbs.SItem := do
+  let t ← pNext
+  if t = "N" then
+    let m ← pStr
+    let p ← pStr
+    pure (.names m p)
+  else if t = "H" then
+    let l ← pStr
+    pure (.header l.toList)
+  else if t = "L" then
+    let k ← pNat
+    let rows ← pNat
+    let raw ← pNat
+    let tag ← pNat
+    pure (.line (if k = 0 then some Kind.minus else if k = 1 then some Kind.plus else if k = 2 then some Kind.ctx else none)
+      ⟨rows, raw != 0, tag⟩)
+  else failure
+
+def findTag (t : Nat) : List WholeSbs.SLine → Nat → Option Nat
+  | [], _ => none
+  | p :: ps, k => if p.tag = t then some k else findTag t ps (k + 1)
+
+/-- the alignment `infer_edits` builds from a given set of pairs: per removed line, its partner among the added lines
+    not yet used (the added lines skipped on the way are unpaired and come first), or no partner; the remaining added
+    lines at the end -/
+def alignFrom (ps : List WholeSbs.SLine) : List WholeSbs.SLine → Nat → Nat → Alignment
+  | [], _, j => rightOnly j (ps.length - j)
+  | m :: ms, i, j =>
+    match (if m.tag = 0 then none else findTag m.tag (ps.drop j) 0) with
+    | some k => rightOnly j k ++ (some i, some (j + k)) :: alignFrom ps ms (i + 1) (j + k + 1)
+    | none => (some i, none) :: alignFrom ps ms (i + 1) j
+
+def tagAlign : WholeSbs.AlignOf := fun ms ps => alignFrom ps ms 0 0
+
+def showSORow : WholeSbs.SORow → String
+  | .header path n => s!" H {hexOfString path} {n}"
+  | .line ⟨some x, some y⟩ w pf => s!" S {showOpt x.left} {showOpt y.right} {w} {hexOfString pf}"
+  | .line _ w pf => s!" P {w} {hexOfString pf}"
+
 def step (cfg : Cfg) (line : String) : String :=
   match fields line with
   | "linenum.pad" :: rest =>
@@ -296,6 +339,14 @@ def step (cfg : Cfg) (line : String) : String :=
       match Whole.runWhole b items with
       | .error e => panicLine e
       | .ok rows => s!"ok {rows.length}" ++ String.join (rows.map showORow)
+    | none => "ERR"
+  | "linenum.whole_sbs" :: rest =>
+    -- a whole multi-file, multi-hunk input through `WholeSbs.runWholeSbs` (side-by-side view)
+    match runP (do let b ← pNat; let items ← pCounted pItemS; pure (b, items)) rest with
+    | some (b, items) =>
+      match WholeSbs.runWholeSbs b tagAlign items with
+      | .error e => panicLine e
+      | .ok rows => s!"ok {rows.length}" ++ String.join (rows.map showSORow)
     | none => "ERR"
   | "linenum.defaults" :: [] =>
     s!"ok {hexOfString Generated.LineNum.defaultLeftFormat} {hexOfString Generated.LineNum.defaultRightFormat} {hexOfString Generated.LineNum.sbsLeftFormat} {hexOfString Generated.LineNum.sbsRightFormat} {Generated.LineNum.lineBufferSizeDefault}"
